@@ -59,6 +59,7 @@ CLASS2STAGE = {"State": 1, "TimeKeeper": 2, "Grid": 3, "Forcing": 4, "ParticleRe
 NAME2STAGE = {"state": 1, "time": 2, "grid": 3, "forcing": 4, "release": 5, "tracker": 6, "ibm": 7, "output": 8}
 SEC = {"missing": 0, "null": 1, "present": 2}
 REF_SHIFTS = [0, -86400, 43200, 1800]
+_SLOT = 0
 CF = {"ok": 0, "missing": 1, "badsyntax": 2, "badversion": 3}
 
 
@@ -72,14 +73,20 @@ def realize(desc, d: Path):
     import hashlib
     import json
 
-    key = hashlib.md5(json.dumps([imax, jmax, desc["files"], desc.get("tunit")]).encode()).hexdigest()[:16]
-    fdir = d.parent / "forcing_cache" / key
-    if not fdir.exists():
-        fdir.mkdir(parents=True)
-        for k, times in enumerate(desc["files"]):
-            # every file has its own time reference (as files produced by different model runs have)
-            rf.write_roms(fdir / f"ocean_{k:03d}.nc", imax=imax, jmax=jmax, N=2, times=times, u=0.0, v=0.0,
-                          time_ref_shift=REF_SHIFTS[k % len(REF_SHIFTS)], time_unit="s" if desc.get("tunit") == "s" else ["s", "h", "d"][(k + len(times)) % 3])
+    # the forcing files of successive cases are written under the SAME few paths (a directory re-used and its
+    # files regenerated from case to case, as when an experiment is re-run after the forcing was re-made):
+    # what a run sees is what the files hold NOW
+    global _SLOT
+    _SLOT = (_SLOT + 1) % 3
+    fdir = d.parent / "forcing_cache" / f"slot{_SLOT}"
+    fdir.mkdir(parents=True, exist_ok=True)
+    for old in fdir.glob("*.nc"):
+        old.unlink()
+    for k, times in enumerate(desc["files"]):
+        # every file has its own time reference (as files produced by different model runs have)
+        rf.write_roms(fdir / f"ocean_{k:03d}.nc", imax=imax, jmax=jmax, N=2, times=times, u=0.0, v=0.0,
+                      time_ref_shift=REF_SHIFTS[k % len(REF_SHIFTS)],
+                      time_unit="s" if desc.get("tunit") == "s" else ["s", "h", "d"][(k + len(times)) % 3])
     if desc["forcing_single_name"] and len(desc["files"]) == 1:
         fpattern = str(fdir / "ocean_000.nc")
     else:
